@@ -31,6 +31,7 @@ From Coq Require Import Reals.
 From Flocq Require Import Core.
 From MptV Require Import Base.Mem C07.ConvModel C07.ConvSpec C07.ConvProofs C07.ConvTextProofs C07.ConvFloatProofs.
 From MptV Require Import C07.ConvFloat C07.ConvRound C07.ConvFlocq C07.ConvBits C07.ConvFloatThm C07.ConvIntFloat C07.ConvTextFloat.
+From MptV Require Import C07.ConvDispatch C07.ConvDispatchSpec C07.ConvDispatchProofs C07.ConvRangeReal.
 Local Open Scope Z_scope.
 
 (* ---- integer -> integer / char / long, all 8 source types x all targets, all values:
@@ -341,6 +342,191 @@ Theorem C07_text_float_query_same :
     convert_number (Some s) t false o = strip (convert_number (Some s) t true o).
 Proof. exact convert_number_float_query. Qed.
 
+
+(* ======================================================================================
+   THE LAYERS AROUND THE CONVERTERS (ConvDispatch.v): mpt_value_convert for EVERY source type
+   code, floating sources behind it, the two interface wrappers of data_converter.c,
+   mpt_iterator_consume on empty / failing iterators, every branch of mpt_convert_string (as it
+   is and as patched by docs/C07_convert_string_space.diff), the optional range of
+   mpt_cfloat/cdouble/cldouble.
+   [value_convert_c sk tk conv_ok tostr]: what mpt_value_convert does for a value of type code
+   sk and target code tk ([conv_ok]: the converter mpt_data_converter(sk) exists and accepted;
+   [tostr]: the value is terminated text): [VRefused e], [VConv ret] (the converter wrote),
+   [VCopy n] (memcpy of n bytes of the source), [VCopyVec], [VMkVec len], [VStr].
+   ====================================================================================== *)
+
+(* ---- with a NUMERIC target (c b y n q i u x t l f d e) the dispatcher refuses, or the
+   converter of the source type wrote (then the scalar theorems above / the object's own
+   conversion say what), or the value has the very same type and exactly sizeof(target) bytes
+   are copied.  No other source type code, no vector header, no string pointer can end up in a
+   number. *)
+Theorem C07_dispatch_number_target :
+  forall sk tk conv_ok tostr tc, tgt_cty (tty_of_code tk) = Some tc ->
+    match value_convert_c sk tk conv_ok tostr with
+    | VRefused _ => conv_ok = false
+    | VConv r => conv_ok = true /\ r = (if sk =? tk then 0 else 3)
+    | VCopy n => conv_ok = false /\ sk = tk /\ n = cwidth tc
+    | _ => False
+    end.
+Proof. exact value_convert_c_number. Qed.
+
+Theorem C07_dispatch_foreign_source_refused :
+  forall sk tk tostr tc, tgt_cty (tty_of_code tk) = Some tc -> sk <> tk ->
+    exists e, value_convert_c sk tk false tostr = VRefused e.
+Proof. exact value_convert_c_foreign_refused. Qed.
+
+(* ---- a raw copy is made only of a value of the target's own type, with the size of the
+   traits table, never of a managed type; type 0 is never a target *)
+Theorem C07_dispatch_raw_copy_same_type :
+  forall sk tk conv_ok tostr n, value_convert_c sk tk conv_ok tostr = VCopy n ->
+    sk = tk /\ traits tk = Some (n, false).
+Proof. exact value_convert_c_copy. Qed.
+
+(* ---- [value_convert] of the theorems C07_value_convert_* IS this skeleton around the eight
+   switches (every integer/char source code, every value, every target code) *)
+Theorem C07_dispatch_is_value_convert :
+  forall sk c v tk hd, src_cty sk = Some c ->
+    exists s, data_converter sk = ConvInt s /\
+    value_convert sk v tk hd =
+      if tk =? 0 then Refused BadArgument else
+      match convert_int s v (tty_of_code tk) hd with
+      | CFault => CFault
+      | Done stv _ => int_vres c v hd stv (value_convert_c sk tk true false)
+      | Refused _ => int_vres c v hd StNone (value_convert_c sk tk false false)
+      end.
+Proof. exact value_convert_skeleton. Qed.
+
+(* ---- float / double / long double VALUES through mpt_value_convert: the destination and the
+   verdict are those of mpt_data_convert_float32/float64/exflt (so every C07_float_* theorem
+   holds behind the dispatcher); only the return code (0 same type / 3) and the error code change *)
+Theorem C07_dispatch_float_source :
+  forall src bits tk hd, flt_src src -> tk <> 0 ->
+    let code := if flt_code src =? tk then 0 else 3 in
+    match fconv src bits (tty_of_code tk) hd with
+    | FOk c b _ => value_convert_flt src bits tk hd = FOk c b code
+    | FVec l _ => value_convert_flt src bits tk hd = FVec l code
+    | FQuery _ => value_convert_flt src bits tk hd = FQuery code
+    | FFault => value_convert_flt src bits tk hd = FFault
+    | FRefused _ => exists e, value_convert_flt src bits tk hd = FRefused e
+    end.
+Proof. exact value_convert_flt_is_fconv. Qed.
+
+Theorem C07_dispatch_float_never_faults :
+  forall src bits tk hd, flt_src src -> value_convert_flt src bits tk hd <> FFault.
+Proof. exact value_convert_flt_never_faults. Qed.
+
+(* ---- _mpt_metatype_wrap with a reference target: the new referent is retained first (and the
+   call refused when that fails), then the old one released; without destination nothing happens *)
+Theorem C07_metatype_reference_target :
+  forall w hd addref_ok old ans, w <> WNoFrom ->
+    metatype_wrap w 2049 hd addref_ok old ans =
+      if hd then (if is_obj w && negb addref_ok then MwRefused BadOperation else MwRef (is_obj w) old) else MwQuery.
+Proof. exact metatype_wrap_ref. Qed.
+
+(* ---- mpt_iterator_consume, ANY iterator (value or none, advance succeeds or fails), any
+   target code incl. 0 = skip: the destination receives bytes only after BOTH the conversion and
+   the advance succeeded, exactly sizeof(target) of them, and the source type is returned ... *)
+Theorem C07_iterator_writes_only_after_advance :
+  forall it tk hd vc r calls n, iterator_consume_c it tk hd vc = IOut r calls (Some n) ->
+    hd = true /\ vc = None /\ it_adv it = None /\ tk <> 0 /\ calls = 1 /\
+    exists sk tc, it_val it = Some sk /\ tgt_cty (tty_of_code tk) = Some tc /\ n = cwidth tc /\ r = inr sk.
+Proof. exact iterator_consume_c_copies. Qed.
+
+(* ... every error leaves the destination alone, and only a failing advance() has been called *)
+Theorem C07_iterator_error_leaves_destination :
+  forall it tk hd vc e calls cp, iterator_consume_c it tk hd vc = IOut (inl e) calls cp ->
+    cp = None /\ (calls = 1 -> it_adv it = Some e).
+Proof. exact iterator_consume_c_error. Qed.
+
+Theorem C07_iterator_query_same :
+  forall it tk vc, iterator_consume_c it tk false vc =
+    match iterator_consume_c it tk true vc with IOut r calls _ => IOut r calls None end.
+Proof. exact iterator_consume_c_query. Qed.
+
+(* [iterator_consume] of C07_iterator_consume_exact is the case "one value, advance succeeds" *)
+Theorem C07_iterator_is_consume :
+  forall sk v tk hd, tk <> 0 -> value_convert sk v tk hd <> CFault ->
+    iterator_consume_c (mkIter (Some sk) None) tk hd (cres_err (value_convert sk v tk hd)) =
+      match iterator_consume sk v tk hd with
+      | Refused e => IOut (inl e) 0 None
+      | Done _ ret => IOut (inr ret) 1 (if hd then option_map cwidth (tgt_cty (tty_of_code tk)) else None)
+      | CFault => IOut (inl BadType) 0 None
+      end.
+Proof. exact iterator_consume_is_c. Qed.
+
+(* ---- mpt_convert_string: every numeric type CODE reaches the number branch (type 0, 'k', the
+   char vector, TypeValFmt and 's' are the only other branches and hand out pointers / a format,
+   never a number), so C07_convert_string_exact etc. are statements about the entry point ... *)
+Theorem C07_convert_string_every_numeric_code :
+  forall p from tk hd o tc, tgt_cty (tty_of_code tk) = Some tc ->
+    convert_string_full p from tk hd o = SNum (convert_string_p p from (tty_of_code tk) hd o).
+Proof. exact convert_string_full_numeric. Qed.
+
+(* ... for the function as it is (p = false) and as patched by docs/C07_convert_string_space.diff
+   (p = true): the patch only turns an answer into "0 = nothing converted" ... *)
+Theorem C07_convert_string_patch_changes_only_zero :
+  forall p from t hd o,
+    convert_string_p p from t hd o = convert_string from t hd o \/ convert_string_p p from t hd o = TEmpty.
+Proof. exact convert_string_p_cases. Qed.
+
+Theorem C07_convert_string_exact_patched_or_not :
+  forall p t s o w n, int_target t ->
+    tobserve (tgt_cty t) true (convert_string_p p (Some s) t true o) = TOInt w n ->
+    exists tc, tgt_cty t = Some tc /\ value_of 0 (firstn n (cstr s)) = Some w /\ in_range tc w = true.
+Proof. exact convert_string_p_exact. Qed.
+
+Theorem C07_convert_string_float_patched_or_not :
+  forall p t s o n, flt_target_t t ->
+    tobserve (tgt_cty t) true (convert_string_p p (Some s) t true o) = TOFlt n ->
+    let k := fst (skip_space (cstr s)) in
+    fo_overflow o = false /\ (fo_end o - k <> 0)%nat /\ n = (k + (fo_end o - k))%nat /\
+    ((k <= fo_end o)%nat -> n = fo_end o).
+Proof. exact convert_string_p_float_accepts. Qed.
+
+(* ... and THE PATCHED FUNCTION NEVER REPORTS CONSUMED CHARACTERS WITHOUT HAVING STORED A VALUE
+   (every target type, every text): the known finding convert_string_space_only is gone *)
+Theorem C07_convert_string_patched_always_stores :
+  forall from t o stv n, convert_string_p true from t true o = TDone stv n -> stv <> StNone.
+Proof. exact convert_string_patched_stores. Qed.
+
+(* the keyword branch stays inside the text: offset < consumed <= strlen *)
+Theorem C07_convert_string_key_inside_text :
+  forall p s0 hd o off n,
+    convert_string_full p (Some s0) 107 hd o = SKey (Some (Some (off, n))) -> (off < n <= length (cstr s0))%nat.
+Proof. exact convert_string_full_key. Qed.
+
+(* ---- the optional range of mpt_cfloat / mpt_cdouble / mpt_cldouble.  [v] = the value libc
+   returned, [fgt] = C's > on decoded floating values.  Accepted => not below the lower, not
+   above the upper bound, and everything the call without range guarantees ... *)
+Theorem C07_text_float_range_accepts :
+  forall hd s o v lo hi stv n, convert_float_text_r hd s o v (Some (lo, hi)) = TDone stv n ->
+    fgt lo v = false /\ fgt v hi = false /\ convert_float_text hd s o = TDone stv n.
+Proof. exact convert_float_text_r_accepts. Qed.
+
+(* ... a parsed value outside is refused (BadValue), with and without destination ... *)
+Theorem C07_text_float_range_refuses :
+  forall hd s o v lo hi stv n, convert_float_text hd s o = TDone stv n ->
+    fgt lo v = true \/ fgt v hi = true ->
+    convert_float_text_r hd s o v (Some (lo, hi)) = TRefused BadValue.
+Proof. exact convert_float_text_r_outside. Qed.
+
+Theorem C07_text_float_range_query_same :
+  forall s o v range, convert_float_text_r false s o v range = strip (convert_float_text_r true s o v range).
+Proof. exact convert_float_text_r_query. Qed.
+
+(* ---- REAL. ... where [fgt] on finite values is the order of the real numbers they denote, so an
+   accepted finite value lies in the closed real interval of finite bounds *)
+Theorem C07_float_gt_is_real_order :
+  forall na ma ea nb mb eb,
+    fgt (FFin na ma ea) (FFin nb mb eb) = true <-> (dyR nb mb eb < dyR na ma ea)%R.
+Proof. exact fgt_fin_R. Qed.
+
+Theorem C07_text_float_range_is_real_interval :
+  forall hd s o stv n nl ml el nh mh eh nv mv ev,
+    convert_float_text_r hd s o (FFin nv mv ev) (Some (FFin nl ml el, FFin nh mh eh)) = TDone stv n ->
+    (dyR nl ml el <= dyR nv mv ev <= dyR nh mh eh)%R.
+Proof. exact text_float_range_real. Qed.
+
 (* ---- non-vacuity: the hypotheses are met by real conversions and the statements say something ---- *)
 Example C07_ex_accept : conv I32 300 Tq true = OInt 300 2.
 Proof. vm_compute. reflexivity. Qed.
@@ -441,6 +627,54 @@ Example C07_ex_known_finding :
   tobserve (Some CI32) true (convert_string (Some [32;32]) Ti true (mkOracle 0 false FcFinite)) = TOUntouched 2.
 Proof. vm_compute. reflexivity. Qed.
 
+(* ---- the layers around the converters ---- *)
+(* a string pointer ('s' = 115) asked for an int32: refused; for itself: the 8 pointer bytes; a
+   terminated char vector ('C' = 67) as string: its text; an int32 as its own vector ('I' = 73): { &value, 4 };
+   an identifier (0x800, managed) is not copied raw *)
+Example C07_ex_dispatch :
+  value_convert_c 115 105 false true = VRefused BadType /\ value_convert_c 115 115 false true = VCopy 8 /\
+  value_convert_c 67 115 false true = VStr /\ value_convert_c 67 115 false false = VRefused BadType /\
+  value_convert_c 105 73 false false = VMkVec 4 /\ value_convert_c 73 64 false false = VCopyVec /\
+  value_convert_c 2048 2048 false false = VRefused BadValue /\ value_convert_c 128 105 true false = VConv 3.
+Proof. repeat split; reflexivity. Qed.
+(* double -> float through mpt_value_convert: FLT_MAX accepted (code 3), the midpoint to 2^128 refused *)
+Example C07_ex_dispatch_float :
+  value_convert_flt CF64 0x47efffffe0000000 102 true = FOk CF32 (Some 0x7f7fffff) 3 /\
+  value_convert_flt CF64 0x47effffff0000000 102 true = FRefused BadType /\
+  value_convert_flt CF64 0x3ff8000000000000 100 true = FOk CF64 (Some 0x3ff8000000000000) 0 /\
+  value_convert_flt CF32 0x3fc00000 105 true = FRefused BadType.
+Proof. repeat split; vm_compute; reflexivity. Qed.
+(* iterator whose advance() fails: BadOperation, nothing copied; without value: MissingData, advance not called;
+   skip: the type of the value; a good one: 4 bytes, 'i' returned *)
+Example C07_ex_iterator :
+  iterator_consume_c (mkIter (Some 105) (Some BadOperation)) 105 true None = IOut (inl BadOperation) 1 None /\
+  iterator_consume_c (mkIter None (Some MissingData)) 105 true None = IOut (inl MissingData) 0 None /\
+  iterator_consume_c (mkIter (Some 105) None) 0 true None = IOut (inr 105) 1 None /\
+  iterator_consume_c (mkIter (Some 105) None) 121 true (Some BadType) = IOut (inl BadType) 0 None /\
+  iterator_consume_c (mkIter (Some 105) None) 105 true None = IOut (inr 105) 1 (Some 4).
+Proof. repeat split; reflexivity. Qed.
+(* "  key rest" as keyword: starts at 2, 5 characters consumed; "  " is no keyword; the patched
+   mpt_convert_string answers 0 for "  " where the present one reports 2 characters (known finding) *)
+Example C07_ex_string_branches :
+  convert_string_full false (Some [32;32;107;101;121;32;114;101;115;116]) 107 true (mkOracle 0 false FcFinite) = SKey (Some (Some (2%nat, 5%nat))) /\
+  convert_string_full false (Some [32;32]) 107 true (mkOracle 0 false FcFinite) = SKey (Some None) /\
+  convert_string_full false (Some [97;98]) 67 true (mkOracle 0 false FcFinite) = SVec false 2 /\
+  convert_string_full true (Some [32;32]) 105 true (mkOracle 0 false FcFinite) = SNum TEmpty /\
+  convert_string_full false (Some [32;32]) 105 true (mkOracle 0 false FcFinite) = SNum (TDone StNone 2) /\
+  convert_string_full true (Some [32;55]) 105 true (mkOracle 0 false FcFinite) = SNum (TDone (StInt CI32 7) 2).
+Proof. repeat split; vm_compute; reflexivity. Qed.
+(* "2.5" (libc: 3 characters, 0x4004000000000000) with range [0, 1]: refused; with [0.1, 2.5]: accepted;
+   2.5 > 1 and not 1 > 2.5; a NaN compares false with everything, so the C test lets it pass *)
+Example C07_ex_range :
+  let v := fdecode CF64 0x4004000000000000 in
+  let r01 := Some (fdecode CF64 0, fdecode CF64 0x3ff0000000000000) in
+  let r2 := Some (fdecode CF64 0x3fb999999999999a, fdecode CF64 0x4004000000000000) in
+  convert_float_text_r true [50;46;53] (mkOracle 3 false FcFinite) v r01 = TRefused BadValue /\
+  convert_float_text_r true [50;46;53] (mkOracle 3 false FcFinite) v r2 = TDone StOrc 3 /\
+  fgt v (fdecode CF64 0x3ff0000000000000) = true /\ fgt (fdecode CF64 0x3ff0000000000000) v = false /\
+  convert_float_text_r true [110;97;110] (mkOracle 3 false FcNaN) FNaN r01 = TDone StOrc 3.
+Proof. repeat split; vm_compute; reflexivity. Qed.
+
 Print Assumptions C07_int_int_exact_or_refused.
 Print Assumptions C07_query_same_verdict.
 Print Assumptions C07_never_faults.
@@ -477,3 +711,25 @@ Print Assumptions C07_text_float_overflow_refused.
 Print Assumptions C07_text_float_string_overflow_refused.
 Print Assumptions C07_text_float_badvalue_only_overflow.
 Print Assumptions C07_text_float_query_same.
+Print Assumptions C07_dispatch_number_target.
+Print Assumptions C07_dispatch_foreign_source_refused.
+Print Assumptions C07_dispatch_raw_copy_same_type.
+Print Assumptions C07_dispatch_is_value_convert.
+Print Assumptions C07_dispatch_float_source.
+Print Assumptions C07_dispatch_float_never_faults.
+Print Assumptions C07_metatype_reference_target.
+Print Assumptions C07_iterator_writes_only_after_advance.
+Print Assumptions C07_iterator_error_leaves_destination.
+Print Assumptions C07_iterator_query_same.
+Print Assumptions C07_iterator_is_consume.
+Print Assumptions C07_convert_string_every_numeric_code.
+Print Assumptions C07_convert_string_patch_changes_only_zero.
+Print Assumptions C07_convert_string_exact_patched_or_not.
+Print Assumptions C07_convert_string_float_patched_or_not.
+Print Assumptions C07_convert_string_patched_always_stores.
+Print Assumptions C07_convert_string_key_inside_text.
+Print Assumptions C07_text_float_range_accepts.
+Print Assumptions C07_text_float_range_refuses.
+Print Assumptions C07_text_float_range_query_same.
+Print Assumptions C07_float_gt_is_real_order.
+Print Assumptions C07_text_float_range_is_real_interval.
